@@ -48,6 +48,7 @@ T_Block == /\ IsEvent("block")
               /\ IF yl \/ ~CanStep(t) THEN TRUE
                  ELSE IF t \in Client THEN G("blk." \o cli[t].stage, FALSE)
                  ELSE IF act[t].pc = "idle" THEN G(IF act[t].mq = <<>> THEN "blk.loop.closed" ELSE "blk.loop.deq", FALSE)
+                 ELSE IF act[t].pc = "handling" THEN G("blk.loop.handling", FALSE)
                  ELSE G("blk.loop", FALSE)
               /\ cur' = None /\ yl' = FALSE /\ UNCHANGED sys
 
@@ -134,7 +135,7 @@ T_HBegin == /\ IsEvent("h_begin")
 T_HEnd == /\ IsEvent("h_end")
           /\ LET a == E.task IN
              /\ G("he.cur", cur = a /\ ~yl)
-             /\ G("he.phase", act[a].pc = "handling" /\ ScriptDone(a) /\ act[a].sdl < 0 /\ ~TimeoutReady(a))
+             /\ G("he.phase", act[a].pc = "handling" /\ ScriptDone(a) /\ act[a].sdl < 0)
              /\ G("he.msg", act[a].curp.m = E.m)
              /\ HandleEnd(a) /\ UNCHANGED <<cur, yl>>
              /\ G("he.pos", Len(act'[a].st) = E.pos)
@@ -143,10 +144,11 @@ T_HEnd == /\ IsEvent("h_end")
 T_HAbandon == /\ IsEvent("h_abandon")
               /\ LET a == E.task IN
                  IF act[a].pc = "handling"
-                 THEN /\ G("ha.cur", cur = a /\ ~yl)
+                 THEN \* (a yield of the handler suspends only the handler future: the select! still sees the Delay)
+                      /\ G("ha.cur", cur = a)
                       /\ G("ha.msg", act[a].curp.m = E.m)
                       /\ G("ha.timeout", TimeoutReady(a))
-                      /\ TimeoutFire(a) /\ UNCHANGED <<cur, yl>>
+                      /\ TimeoutFire(a) /\ cur' = cur /\ yl' = FALSE
                  ELSE /\ G("ha.dead", act[a].pc = "failed" /\ hst.ab[a] # <<>> /\ hst.ab[a][Len(hst.ab[a])] = E.m)
                       /\ UNCHANGED vars
 
@@ -155,7 +157,6 @@ T_Eff == /\ IsEvent("eff")
             /\ G("eff.cur", cur = a /\ ~yl)
             /\ G("eff.script", InScript(a) /\ ~ScriptDone(a) /\ act[a].sdl < 0)
             /\ G("eff.kind", CurEff(a).e = E.e /\ CurEff(a).n = E.n)
-            /\ G("eff.notimeout", ~TimeoutReady(a))
             /\ (E.e \in {"ctx_stop", "ctx_restart"} => G("eff.ctx", (E.res = "ok") <=> CtxSubmitOk(a)))
             /\ ScriptStep(a) /\ UNCHANGED <<cur, yl>>
 
@@ -181,7 +182,7 @@ IsSilentLoop(a) ==
   \/ act[a].pc = "dequeued" /\ act[a].curp.k = "task" /\ act[a].curp.rs = "ping"   \* PingHandled
   \/ act[a].pc = "dequeued" /\ act[a].curp.k = "restart" /\ (act[a].strat = "none" \/ act[a].stream)
   \/ act[a].pc \in {"stopped", "notified"}                                  \* Notify, Exit
-  \/ InScript(a) /\ ~ScriptDone(a) /\ CurEff(a).e = "sleep" /\ act[a].sdl >= 0 /\ now >= act[a].sdl /\ ~TimeoutReady(a)
+  \/ InScript(a) /\ ~ScriptDone(a) /\ CurEff(a).e = "sleep" /\ act[a].sdl >= 0 /\ now >= act[a].sdl
 T_Silent == /\ cur # None /\ ~yl /\ l' = l
             /\ \/ cur \in Actor /\ IsSilentLoop(cur) /\ RunLoop(cur)
                \/ cur \in Client /\ cli[cur].stage = "flush" /\ cli[cur].op = "call" /\ RunCont(cur)
